@@ -312,6 +312,166 @@ func clearCheck(seed uint64) string {
 	return ""
 }
 
+// cacheIter is the cache-level half of C15: All / Keys / Values of a real cache iterate while
+// writers replace and invalidate hot keys and churn grows and shrinks the table. A stable key set
+// (never touched) must be yielded exactly once by every iteration; no key twice; a yielded
+// (key, value) must have been written, and must not have been reported to OnDeletion before the
+// iteration began (OnDeletion runs after the removal is complete).
+func cacheIter(seed uint64) (violation string, iterations, yields int64) {
+	r := core.NewRng(seed)
+	base := time.Now()
+	now := func() int64 { return int64(time.Since(base)) }
+	var removedAt sync.Map // value -> time of its OnDeletion
+	stable := 1 + r.Intn(30)
+	hot := 1 + r.Intn(6)
+	o := &otter.Options[int, int]{
+		InitialCapacity: []int{0, 1, 16, 1000}[r.Intn(4)],
+		Executor:        func(fn func()) { fn() },
+		OnDeletion: func(e otter.DeletionEvent[int, int]) {
+			removedAt.Store(e.Value, now())
+		},
+	}
+	c, err := otter.New(o)
+	if err != nil {
+		return "cannot build: " + err.Error(), 0, 0
+	}
+	defer c.StopAllGoroutines()
+	otter.VerifSetHook(compHook(seed, []int{0, 20, 100}[r.Intn(3)]))
+	defer otter.VerifSetHook(nil)
+	for i := 0; i < stable; i++ {
+		c.Set(stableBase+i, stableBase+i)
+	}
+	written := sync.Map{} // value -> key
+	var stop atomic.Bool
+	var vmu sync.Mutex
+	fail := func(s string) {
+		vmu.Lock()
+		if violation == "" {
+			violation = s
+		}
+		vmu.Unlock()
+		stop.Store(true)
+	}
+	var wg sync.WaitGroup
+	writers := 1 + r.Intn(4)
+	for w := 0; w < writers; w++ {
+		wg.Add(1)
+		go func(w int) {
+			defer wg.Done()
+			rng := core.NewRng(core.Derive(seed, 1, uint64(w)))
+			for i := 0; i < 300 && !stop.Load(); i++ {
+				k := rng.Intn(hot)
+				if rng.Chance(1, 4) {
+					c.Invalidate(k)
+				} else {
+					v := (w+1)*10_000_000 + i + 1
+					written.Store(v, k)
+					c.Set(k, v)
+				}
+				progress.Add(1)
+			}
+		}(w)
+	}
+	churnKeys := 200 + r.Intn(2000)
+	wg.Add(1)
+	go func() {
+		defer wg.Done()
+		for round := 0; round < 3 && !stop.Load(); round++ {
+			for i := 0; i < churnKeys; i++ {
+				v := 500_000_000 + round*churnKeys + i
+				written.Store(v, churnBase+i)
+				c.Set(churnBase+i, v)
+			}
+			for i := 0; i < churnKeys; i++ {
+				c.Invalidate(churnBase + i)
+			}
+		}
+	}()
+	var its, ys atomic.Int64
+	var iwg sync.WaitGroup
+	for g := 0; g < 1+r.Intn(3); g++ {
+		iwg.Add(1)
+		go func(g int) {
+			defer iwg.Done()
+			for n := 0; n < 60 && !stop.Load(); n++ {
+				t0 := now()
+				seen := map[int]int{}
+				check := func(k, v int, hasK, hasV bool) {
+					ys.Add(1)
+					if hasK {
+						seen[k]++
+					}
+					if hasV && v >= 10_000_000 {
+						wk, ok := written.Load(v)
+						if !ok {
+							fail(fmt.Sprintf("an iteration yielded value %d, which was never written", v))
+							return
+						}
+						if hasK && wk.(int) != k {
+							fail(fmt.Sprintf("an iteration yielded (%d,%d) but that value was written to key %d", k, v, wk.(int)))
+							return
+						}
+						if d, ok := removedAt.Load(v); ok && d.(int64) < t0 {
+							fail(fmt.Sprintf("an iteration begun at %d yielded value %d of key %d, whose removal had been notified at %d, before the iteration began", t0, v, wk.(int), d.(int64)))
+						}
+					}
+				}
+				switch (g + n) % 3 {
+				case 0:
+					for k, v := range c.All() {
+						check(k, v, true, true)
+					}
+				case 1:
+					for k := range c.Keys() {
+						check(k, 0, true, false)
+					}
+				default:
+					nv := 0
+					stableSeen := 0
+					for v := range c.Values() {
+						check(0, v, false, true)
+						nv++
+						if v >= stableBase && v < stableBase+stable {
+							stableSeen++
+						}
+					}
+					if stableSeen != stable {
+						fail(fmt.Sprintf("Values() yielded %d of the %d stable values", stableSeen, stable))
+					}
+					its.Add(1)
+					continue
+				}
+				its.Add(1)
+				for k, cnt := range seen {
+					if cnt > 1 {
+						fail(fmt.Sprintf("one iteration yielded key %d %d times", k, cnt))
+					}
+				}
+				for i := 0; i < stable; i++ {
+					if seen[stableBase+i] != 1 {
+						fail(fmt.Sprintf("an iteration did not yield stable key %d, which was present for its whole duration", stableBase+i))
+						break
+					}
+				}
+				progress.Add(1)
+			}
+		}(g)
+	}
+	iwg.Wait()
+	stop.Store(true)
+	wg.Wait()
+	if violation == "" {
+		n := 0
+		for range c.All() {
+			n++
+		}
+		if c.EstimatedSize() != n {
+			violation = fmt.Sprintf("EstimatedSize()=%d but a quiescent iteration yields %d entries", c.EstimatedSize(), n)
+		}
+	}
+	return violation, its.Load(), ys.Load()
+}
+
 func RunC15(col *core.Collector, tier, variant string, seed uint64, shard, nshards int, replayDir, outBase string) {
 	col.Note("rule: a trial = lookups and per-key atomic updates on hot keys (recorded, porcupine per key), a stable key set that every concurrent lookup and every concurrent Range must find exactly once, churn goroutines that grow and shrink the table, Rangers checking once-only / nothing-removed-before-start, Size at quiescence, Clear; non-trivial = the table grew or shrank during the trial and at least one hot key history overlapped; distinct = hash of the hot-key history")
 	n := 500
@@ -349,6 +509,12 @@ func RunC15(col *core.Collector, tier, variant string, seed uint64, shard, nshar
 		if v == "" && i%10 == 0 {
 			v = clearCheck(cfg.Seed)
 			col.Count("clear_checks", 1)
+		}
+		if v == "" && i%2 == 0 {
+			var its, ys int64
+			v, its, ys = cacheIter(cfg.Seed ^ 0x77)
+			col.Count("cache_level.iterations", its)
+			col.Count("cache_level.yields", ys)
 		}
 		wd.Disarm()
 		col.Eval(1)
